@@ -1,10 +1,31 @@
 (* Properties_C18.v -- C18: archive-derived text printed by the tool is printable
-   ASCII only.  The theorems about the list commands (ListOut.v) are added from
-   P_ListOut.v as they are completed; the test/extract/print commands are covered
-   by the output scan of the check. *)
-From Lhasa Require Import Base Printf ListOut.
+   ASCII only.  Statements only; proofs in P_ListOut.v (model: ListOut.v, the
+   list commands l / lv / v / vv with every quiet level and pattern list).  The
+   test / extract / print commands are covered by the byte scan of the check. *)
+From Lhasa Require Import Base Header Printf Glob ListOut P_ListOut.
 Local Open Scope N_scope.
+
+(* The sanitiser: its image is printable ASCII, it is the identity on printable text. *)
+Theorem safe_output_allowed : forall s, Forall printable (safe_output s).
+Proof. exact P_ListOut.safe_output_allowed. Qed.
+
+Theorem safe_output_id : forall s, Forall printable s -> safe_output s = s.
+Proof. exact P_ListOut.safe_output_id. Qed.
+
+(* Every byte the list commands write -- for ARBITRARY header contents (names,
+   paths, link targets, the method field, of the first and of later members), any
+   mode, quiet level, pattern list, clock and localtime -- is printable ASCII or
+   the tool's own newline.  (The list commands emit no TAB or CR.)  Column names,
+   OS names and month names are the strings regenerated from src/list.c; a
+   non-ASCII literal there breaks the proof. *)
+Theorem list_output_clean : forall lt opts pats now mtime hs out,
+  list_output lt opts pats now mtime hs = Ok out -> Forall allowed out.
+Proof. exact P_ListOut.list_output_clean. Qed.
 
 Example safe_output_example :
   safe_output [97; 27; 91; 50; 74; 255; 127; 10; 126; 32] = [97; 63; 91; 50; 74; 63; 63; 63; 126; 32].
 Proof. vm_compute. reflexivity. Qed.
+
+Print Assumptions safe_output_allowed.
+Print Assumptions safe_output_id.
+Print Assumptions list_output_clean.
